@@ -149,7 +149,7 @@ PairCls(a, b, neg) == IF a = Inf /\ b = Inf THEN "O+O" ELSE IF a = Inf THEN "O+Q
 G1Valid(p) == JCanon(p) /\ G1OnCurve(Den1(p))
 G2Valid(q) == Canon2(q) /\ G2OnCurve(Den2(q))
 G1Exp(e, a, b) == IF e.f = "add" THEN G1Add(a, b) ELSE IF e.f = "sub" THEN G1Add(a, G1Neg(b)) ELSE IF e.f = "dbl" THEN G1Dbl(a) ELSE IF e.f = "neg" THEN G1Neg(a)
-                  ELSE IF e.f = "mul" THEN G1Mul(e.k, a) ELSE IF e.f = "gmul" THEN G1Mul(e.k, GenG1) ELSE <<"?">>
+                  ELSE IF e.f = "mul" THEN G1Mul(e.k, a) ELSE IF e.f = "gmul" THEN G1Mul(e.k, GenG1) ELSE IF e.f = "affine" THEN a ELSE <<"?">>
 G1Op2(e, a, b) == IF e.f = "equals" THEN Stay /\ tlast' = Verdict(e, e.outcome = "ok" /\ (e.eq = 1) = (a = b), "g1.equals." \o PairCls(a, b, G1Neg(b)) \o "." \o e.cls, IF Crash(e) THEN e.outcome ELSE "wrong-equality")
                   ELSE Stay /\ tlast' = Verdict(e, e.outcome = "ok" /\ JCanon(e.out) /\ Den1(e.out) = G1Exp(e, a, b),
                                                 "g1." \o e.f \o "." \o (IF e.f \in {"add", "sub"} THEN PairCls(a, b, G1Neg(b)) \o "." ELSE "") \o e.cls, IF Crash(e) THEN e.outcome ELSE "wrong-point")
